@@ -247,7 +247,9 @@ func declRow(kind, ns, nskind string, concrete bool, name string, m *types.Metho
 		case types.NamedRestParameterKind:
 			k = "k"
 		}
-		ps = append(ps, p.Name.String()+"\x1f"+k+"\x1f"+clean(types.Inspect(p.Type)))
+		// 4th sub-field: the member classes of the declared parameter type (same denotation as retset), used by
+		// c28.calls to pass every member class of a union / named type through a local declared with that type
+		ps = append(ps, p.Name.String()+"\x1f"+k+"\x1f"+clean(types.Inspect(p.Type))+"\x1f"+strings.Join(typeSet(p.Type, false), ","))
 	}
 	r.params = strings.Join(ps, "\x1e")
 	r.ret = clean(types.Inspect(m.ReturnType))
